@@ -377,6 +377,7 @@ var constPool = []string{
 	"7", "300", "256", "65535", "65536", "65580", "255", "1000", "4096", "-5", "70000", "12345678901234567890", "1.5",
 	"\"abc\"", "\"abd\"", "b\"xy\"", "(1, \"a\")", "(1, \"b\")", "[1, 2, 300]", "[1, 2, 301]", "[1, 2, 65836]",
 	"{\"a\": 1, \"b\": [2, 300]}", "{\"a\": 1, \"b\": [2, 65836]}", "set([1, 2])", "set([1, 3])", "True", "None", "513", "2",
+	"[[[[[[[[[[[[1]]]]]]]]]]]]", "[[[[[[[[[[[[2]]]]]]]]]]]]", "{\"d\": ((((((((((((\"x\",),),),),),),),),),),),)}", "{\"d\": ((((((((((((\"y\",),),),),),),),),),),),)}",
 }
 
 // GenConst draws a constant literal.
